@@ -25,7 +25,11 @@ class ScriptOverrun(RuntimeError):
     """Harness bug guard: more frames than the script provides."""
 
 
-@desper.event_handler('on_quit')
+class SwitchBoom(ValueError):
+    """Raised while the loop performs a world switch (failing load() or failing listener of the entered world)."""
+
+
+@desper.event_handler('on_quit', 'on_switch_in', 'poke')
 class QuitListener:
     def __init__(self, ctx, tag):
         self.ctx = ctx
@@ -43,6 +47,41 @@ class QuitListener:
             ctx.sp.cover('listener-raises')
             ctx.sp.note('      on_quit listener of %s raises %r' % (self.tag, ex))
             raise ex
+
+
+    def on_switch_in(self, *args):
+        self.switch_fault('on_switch_in')
+
+    def poke(self, *args):
+        self.switch_fault('poke')
+
+    def switch_fault(self, event):
+        ctx = self.ctx
+        if ctx.swboom_world is self.world:
+            # scripted fault: the entered world's listener fails when the loop re-enables its dispatching
+            ex = SwitchBoom('%s listener of %s failed' % (event, self.tag))
+            ctx.swboom_world = None
+            ctx.stop = ('raise', ex)
+            ctx.resync = True
+            ctx.sp.cover('switch-listener-raises')
+            ctx.sp.note('      %s listener of %s raises %r' % (event, self.tag, ex))
+            raise ex
+
+
+class FailHandle(desper.Handle):
+    """A world handle whose load() always fails."""
+
+    def __init__(self, ctx):
+        self.ctx = ctx
+
+    def load(self):
+        ctx = self.ctx
+        ex = SwitchBoom('load() failed')
+        ctx.stop = ('raise', ex)
+        ctx.resync = True
+        ctx.sp.cover('switch-load-raises')
+        ctx.sp.note('      load() of the target handle raises %r' % (ex,))
+        raise ex
 
 
 class ScriptProc(desper.Processor):
@@ -91,7 +130,7 @@ TERMINATORS = ['quit', 'quit_loop', 'quit_loop_cur', 'raise']
 
 
 class Ctx:
-    def __init__(self, sp, frames, n_procs, n_worlds, raw, direct=False, lraise=False):
+    def __init__(self, sp, frames, n_procs, n_worlds, raw, direct=False, lraise=False, swfail=False):
         self.sp = sp
         self.frames = frames
         self.n_procs = n_procs
@@ -99,6 +138,10 @@ class Ctx:
         self.raw = raw
         self.direct = direct
         self.lraise = lraise
+        self.swfail = swfail
+        self.swboom_world = None    # world whose listener is scripted to fail during the switch into it
+        self.resync = False         # a switch failed: current world is don't-care, the harness re-seats it
+        self.fail_handle = FailHandle(self)
         self.boom_world = None      # world whose on_quit listener is scripted to raise
         self.keep = []
         self.names = []
@@ -151,6 +194,7 @@ class Ctx:
         self.readings += 1
         self.calls = 0
         self.abandoned = False
+        self.swboom_world = None
         sp.note('start %d frame %d: clock reading #%d = %s' % (self.start_no, self.readings - 1, k, self.show(t)))
         return t
 
@@ -204,6 +248,8 @@ class Ctx:
             terms.append('quit_loop_lraise')
             if self.n_worlds > 1:
                 terms.append('quit_loop_other_lraise')
+        if self.swfail and self.n_worlds > 1:
+            terms += ['switch_loadfail', 'switch_infail']
         if last_frame:
             opts = list(terms)
             if self.n_worlds > 1:
@@ -260,6 +306,30 @@ class Ctx:
             else:
                 desper.quit_loop(target)
             sp.fail('quit_loop-returns', '%s: quit_loop returned instead of raising Quit' % where)
+        if a == 'switch_loadfail':
+            # the switch itself fails: load() of the (uncached) target raises - inside desper.switch() for the
+            # function, inside the loop's SwitchWorld handling for the raw exception
+            self.abandoned = True
+            sp.cover('switch-fails')
+            if self.raw:
+                raise desper.SwitchWorld(self.fail_handle)
+            desper.switch(self.fail_handle)
+            sp.fail('switch-returns', '%s: switch() returned instead of raising' % where)
+        if a == 'switch_infail':
+            # the entered world has a listener that raises as soon as the loop re-enables its dispatching:
+            # on_switch_in queued by desper.switch(), or an event queued beforehand for the raw exception
+            self.cur = 1 - self.cur
+            self.switched = True
+            self.abandoned = True
+            sp.cover('switch-fails')
+            h = self.handles[self.cur]
+            self.swboom_world = h()
+            if self.raw:
+                self.swboom_world.dispatch_enabled = False
+                self.swboom_world.dispatch('poke')
+                raise desper.SwitchWorld(h)
+            desper.switch(h)
+            sp.fail('switch-returns', '%s: switch() returned instead of raising SwitchWorld' % where)
         if a == 'switch':
             self.cur = 1 - self.cur
             self.switched = True
@@ -273,9 +343,9 @@ class Ctx:
         raise AssertionError(a)
 
 
-def h_loop(sp, starts=2, frames=3, n_procs=2, n_worlds=2, raw=False, direct=False, lraise=False):
+def h_loop(sp, starts=2, frames=3, n_procs=2, n_worlds=2, raw=False, direct=False, lraise=False, swfail=False):
     per_start = list(frames) if isinstance(frames, (list, tuple)) else [frames] * starts
-    ctx = Ctx(sp, per_start[0], n_procs, n_worlds, raw, direct, lraise)
+    ctx = Ctx(sp, per_start[0], n_procs, n_worlds, raw, direct, lraise, swfail)
     loop = desper.SimpleLoop(time_function=ctx.tf)
     ctx.loop = loop
     saved = desper.default_loop
@@ -292,6 +362,7 @@ def h_loop(sp, starts=2, frames=3, n_procs=2, n_worlds=2, raw=False, direct=Fals
             ctx.switched = False
             ctx.direct_switched = False
             ctx.boom_world = None
+            ctx.swboom_world = None
             ctx.abandoned = False
             sp.note('--- start() #%d' % s)
             outcome = None
@@ -317,6 +388,18 @@ def h_loop(sp, starts=2, frames=3, n_procs=2, n_worlds=2, raw=False, direct=Fals
                     sp.check(len(new) == 1 and new[0] is ctx.stop[2], 'on_quit-before-listener-fault',
                              'start %d: on_quit deliveries %s' % (s, [ctx.name(w) for w in new]))
                 ctx.prev_outcome = 'raise'
+                if ctx.resync:
+                    # the switch failed half-way: which world is current now is don't-care; the caller seats a
+                    # world again (public Loop.switch) before the next start()
+                    ctx.resync = False
+                    ctx.cur = 0
+                    try:
+                        loop.switch(ctx.handles[0])
+                    except Exception as ex:         # noqa
+                        sp.fail('reseat-raises', 'start %d: loop.switch(h0) after the failed switch raised %r'
+                                % (s, ex))
+                    if s + 1 < starts:
+                        sp.cover('restart-after-failed-switch')
             else:
                 _, target, was_enabled = ctx.stop
                 sp.check(outcome is None, 'quit-start-returns',
@@ -367,6 +450,12 @@ HARNESSES = {
                                   'exception', 'raw-quit', 'on_quit-current', 'on_quit-given-current',
                                   'on_quit-given-other', 'on_quit-target-muted', 'switch'],
                         concolic=True),
+    'loop-swfail': dict(fn=h_loop,
+                        nontrivial=['dt-later-frame', 'restart', 'switch-fails', 'exception'],
+                        required=['dt-later-frame', 'restart-after-exception', 'restart-after-quit', 'switch-fails',
+                                  'switch-load-raises', 'switch-listener-raises', 'restart-after-failed-switch',
+                                  'exception', 'raw-quit', 'on_quit-current', 'switch'],
+                        concolic=True),
     'loop-1p': dict(fn=h_loop,
                     nontrivial=['dt-later-frame', 'restart', 'dt-across-switch', 'exception', 'on_quit-given-other'],
                     required=['dt-later-frame', 'restart-after-exception', 'restart-after-quit', 'dt-across-switch',
@@ -393,6 +482,8 @@ TIERS = {
         ('loop1', dict(starts=3, frames=2, n_procs=1, n_worlds=1)),
         ('loop-direct', dict(starts=2, frames=(2, 2), n_procs=2, n_worlds=2, raw=False, direct=True)),
         ('loop-lraise', dict(starts=2, frames=(2, 2), n_procs=2, n_worlds=2, raw=False, lraise=True)),
+        ('loop-swfail', dict(starts=2, frames=(2, 2), n_procs=2, n_worlds=2, raw=False, swfail=True)),
+        ('loop-swfail', dict(starts=2, frames=(2, 2), n_procs=2, n_worlds=2, raw=True, swfail=True)),
     ],
     'thorough': [
         ('loop', dict(starts=2, frames=(4, 2), n_procs=2, n_worlds=2, raw=False)),
@@ -409,6 +500,9 @@ TIERS = {
         ('loop-direct', dict(starts=3, frames=(2, 2, 2), n_procs=1, n_worlds=2, raw=False, direct=True)),
         ('loop-lraise', dict(starts=2, frames=(3, 2), n_procs=2, n_worlds=2, raw=False, lraise=True)),
         ('loop-lraise', dict(starts=3, frames=(2, 2, 2), n_procs=1, n_worlds=2, raw=False, lraise=True)),
+        ('loop-swfail', dict(starts=2, frames=(3, 2), n_procs=2, n_worlds=2, raw=False, swfail=True)),
+        ('loop-swfail', dict(starts=2, frames=(3, 2), n_procs=2, n_worlds=2, raw=True, swfail=True)),
+        ('loop-swfail', dict(starts=3, frames=(2, 2, 2), n_procs=1, n_worlds=2, raw=True, swfail=True)),
     ],
 }
 BUDGET_S = {'quick': 120, 'thorough': 1500}
@@ -428,10 +522,11 @@ RULE = ('one evaluation = one feasible path (a complete script of actions for ev
 BOUNDS = {
     'quick': '2 starts x (<=3,<=2) and (<=2,<=3) frames x 2 processors x 2 worlds (desper.switch); 2 starts x <=2 frames (raw '
              'SwitchWorld); 3 starts x <=2 frames x 1 processor x 1 world; 2 starts x <=2 frames x 2 processors with '
-             'the extra action "call loop.switch(other) directly"; the same with "quit_loop whose on_quit listener raises"; clock readings unbounded reals',
+             'the extra action "call loop.switch(other) directly"; the same with "quit_loop whose on_quit listener raises" and with "switch that fails itself" (desper.switch and raw); clock readings unbounded reals',
     'thorough': 'frames per start (4,2), (2,4), (3,3) x 2 procs (desper.switch); (3,3) raw SwitchWorld; 3 starts '
                 '(2,2,2) x 2 procs; 3 starts (3,3,3) x 1 proc; (5,5) x 1 proc; 1 start x <=6 frames x 2 procs; '
-                '(2,2) x 3 procs; with direct loop.switch(): (3,2) x 2 procs, (2,2) x 2 procs raw, (2,2,2) x 1 proc; with a failing on_quit listener: (3,2) x 2 procs, (2,2,2) x 1 proc; '
+                '(2,2) x 3 procs; with direct loop.switch(): (3,2) x 2 procs, (2,2) x 2 procs raw, (2,2,2) x 1 proc; with a failing on_quit listener: (3,2) x 2 procs, (2,2,2) x 1 proc; with failing '
+                'switches: (3,2) x 2 procs switch() and raw, (2,2,2) x 1 proc raw; '
                 'always 2 worlds; clock readings unbounded reals',
 }
 ASSUMPTIONS = [
@@ -439,6 +534,11 @@ ASSUMPTIONS = [
     '(float rounding of timestamp - last_timestamp is outside the claim; replays use dyadic values)',
     'loop.running after a non-Quit exception propagated is not specified by the statement: don\'t-care',
     'a raw `raise Quit()` promises nothing about on_quit: deliveries are not checked in that case',
+    'a switch that itself fails (load() of the target raises; a listener of the entered world raises from '
+    'on_switch_in or from a queued event when the loop re-enables its dispatching) is "any other exception": that '
+    'very object must reach the caller of start(); running, current_world and current_world_handle are don\'t-care '
+    'after it, the harness seats world 0 again with the public Loop.switch before the next start(), whose first dt '
+    'must be 0 as always',
     'an exception raised by an on_quit listener while quit_loop delivers on_quit is "any other exception": that very '
     'object must reach the caller of start(); running is don\'t-care then; one listener per world, so the only '
     'listener reached before the fault is the failing one',
